@@ -271,6 +271,17 @@ theorem parse_no_internal (cfg : Cfg) (src : Str) (P : ParseShape.Parsers) (hP :
     ParseShape.parse P (wrap (toksOf (tokeniter cfg src))) fuel ≠ .internal :=
   subparse_no_internal P hP _ (wrap_shape _ (lex_stream_shape cfg src)) fuel none 0 (ParseShape.rootPos_zero _)
 
+/-- **trans_block_no_internal**: the loop of the i18n extension over the body of a `{% trans %}` block
+    (ext.py:471-517, fully modelled, entered after a `block_end`) never reaches
+    `raise RuntimeError("internal parser error")` (ext.py:514) on a stream of the regular shape -/
+theorem trans_block_no_internal (toks : List ParseShape.PTok) (hS : ParseShape.Shape toks) (allowPluralize : Bool)
+    (fuel p : Nat) (hp : ParseShape.RootPos toks p) : ParseShape.transBlock toks allowPluralize fuel p ≠ .internal :=
+  ParseShape.transBlock_no_internal_aux toks hS allowPluralize fuel p hp
+
+example : ParseShape.transBlock [⟨.blockBegin, ""⟩, ⟨.name, "trans"⟩, ⟨.blockEnd, ""⟩, ⟨.data, "hi "⟩, ⟨.variableBegin, ""⟩,
+      ⟨.name, "n"⟩, ⟨.variableEnd, ""⟩, ⟨.blockBegin, ""⟩, ⟨.name, "endtrans"⟩, ⟨.blockEnd, ""⟩] true 10 3 = .ok 8 ∧
+    ParseShape.transBlock [⟨.blockEnd, ""⟩] true 10 0 = .internal := by decide +kernel
+
 /-- a concrete faithful parser family: `if` … `endif` with a body, any expression = one token -/
 def demoParsers : ParseShape.Parsers where
   tuple := fun p => some (p + 1)
